@@ -176,7 +176,7 @@ def t_skeletonize(M):
     return Select(Pw("astype", core), MaskE, Img)         # result[~mask] = image[~mask]
 
 
-HAND = {"openlines": t_openlines, "circular_hough": t_circular_hough, "regional_maximum": t_regional_maximum_default}
+HAND = {"regional_maximum": t_regional_maximum_default}
 # pre-repair shapes that the checker must REJECT (stated as Examples `accepts … = false`)
 REJECTED = {"median_filter_unmasked_minmax": ("median_filter", t_median_filter_asis),
             "regional_maximum_unmasked_ties": ("regional_maximum", t_regional_maximum_unmasked_ties)}
